@@ -9,6 +9,7 @@ import (
 	"crypto/rand"
 	"crypto/rsa"
 	"crypto/sha256"
+	"crypto/sha512"
 	"crypto/x509"
 	"encoding/hex"
 	"flag"
@@ -28,6 +29,7 @@ import (
 	"github.com/google/gce-tcb-verifier/endorse"
 	"github.com/google/gce-tcb-verifier/gcetcbendorsement"
 	"github.com/google/gce-tcb-verifier/keys"
+	"github.com/google/gce-tcb-verifier/keys/gcpkms"
 	epb "github.com/google/gce-tcb-verifier/proto/endorsement"
 	"github.com/google/gce-tcb-verifier/rotate"
 	"github.com/google/gce-tcb-verifier/sev"
@@ -35,7 +37,6 @@ import (
 	"github.com/google/gce-tcb-verifier/sign/memca"
 	"github.com/google/gce-tcb-verifier/sign/nonprod"
 	sops "github.com/google/gce-tcb-verifier/sign/ops"
-	"github.com/google/gce-tcb-verifier/sign/transform"
 	styp "github.com/google/gce-tcb-verifier/sign/types"
 	"github.com/google/gce-tcb-verifier/storage/local"
 	"github.com/google/gce-tcb-verifier/tdx"
@@ -44,6 +45,7 @@ import (
 	"github.com/google/gce-tcb-verifier/testing/nonprod/localkm"
 	"github.com/google/gce-tcb-verifier/testing/nonprod/localnonvcs"
 	"github.com/google/gce-tcb-verifier/testing/nonprod/memkm"
+	"github.com/google/gce-tcb-verifier/testing/testkms"
 	"github.com/google/gce-tcb-verifier/timeproto"
 	"github.com/google/gce-tcb-verifier/verify"
 	sgpb "github.com/google/go-sev-guest/proto/sevsnp"
@@ -54,6 +56,7 @@ import (
 	"verif/internal/ev"
 	"verif/internal/fwgen"
 	"verif/internal/pki"
+	"verif/internal/rotsim"
 )
 
 func TestMain(m *testing.M) { ev.Main(m) }
@@ -86,6 +89,9 @@ type request struct {
 	Candidate   string   `json:"candidate,omitempty"`
 	OutDir      string   `json:"out_dir,omitempty"`
 	Overwrite   bool     `json:"overwrite,omitempty"`
+	Snapshot    string   `json:"snapshot_dir,omitempty"` // snapshot method: <dir>/<image name>.signed instead of the manifest method
+	SvsmImage   bool     `json:"svsm_image,omitempty"`   // snapshot only: an SVSM image goes along (second .signed file)
+	TwoVCS      bool     `json:"two_vcs,omitempty"`      // library only: endorse.Context.VCSs holds two version-control roots
 }
 
 type action struct {
@@ -95,6 +101,7 @@ type action struct {
 	RootSerial string   `json:"root_serial,omitempty"`
 	SignSerial string   `json:"sign_serial,omitempty"` // rotate: "" = default next
 	Collide    bool     `json:"collide,omitempty"`     // rotate: the override repeats an earlier serial
+	TimeKind   string   `json:"time_kind,omitempty"`   // rotate: where the timestamp lies relative to the root's validity
 	Time       string   `json:"time,omitempty"`
 	Req        *request `json:"req,omitempty"`
 	Image      []byte   `json:"-"`
@@ -113,7 +120,7 @@ func (a action) String() string {
 		if s == "" {
 			s = "next"
 		}
-		return fmt.Sprintf("rotate(signCN=%q serial=%s, t=%s)", a.SignCN, s, a.Time)
+		return fmt.Sprintf("rotate(signCN=%q serial=%s, t=%s [%s])", a.SignCN, s, a.Time, a.TimeKind)
 	case "endorse":
 		r := a.Req
 		tech := ""
@@ -123,7 +130,14 @@ func (a action) String() string {
 		if r.Tdx {
 			tech += fmt.Sprintf("tdx[shapes=%d early=%v]", len(r.Shapes), r.EarlyAccept)
 		}
-		return fmt.Sprintf("endorse(%s, %s, clspec=%d commit=%v, t=%s, name=%q dir=%q ow=%v)", a.ImageNote, tech, r.ClSpec, r.Commit != "", r.Time, r.Candidate, r.OutDir, r.Overwrite)
+		out := fmt.Sprintf("name=%q dir=%q ow=%v", r.Candidate, r.OutDir, r.Overwrite)
+		if r.Snapshot != "" {
+			out = fmt.Sprintf("snapshot=%q svsm-image=%v", r.Snapshot, r.SvsmImage)
+		}
+		if r.TwoVCS {
+			out += " two-vcs"
+		}
+		return fmt.Sprintf("endorse(%s, %s, clspec=%d commit=%dB, t=%s, %s)", a.ImageNote, tech, r.ClSpec, len(r.Commit)/2, r.Time, out)
 	}
 	return fmt.Sprintf("verifyOld(%d, frac=%.3f+%dns)", a.Index, a.Frac, a.Nanos)
 }
@@ -169,9 +183,15 @@ func (r *recSigner) PublicKey(ctx context.Context, keyName string) ([]byte, erro
 // ---------------------------------------------------------------------------------------------
 // The world
 
+// A stand-in for an SVSM IGVM image: the pipeline only stores it next to its signed copy.
+var svsmImage = []byte("verif stand-in for an SVSM IGVM image")
+
 type world struct {
-	Kind       string // "mem" = memca+memkm, "disk" = gcsca over storage/local + localkm
-	CLI        bool   // drive through cmd.MakeApp instead of the library entry points
+	// "mem" = memca+memkm, "disk" = gcsca over storage/local + localkm (keys on disk),
+	// "kms" = gcsca over storage/local + keys/gcpkms (manager and signer) over testing/testkms
+	Kind       string
+	CLI        bool // drive through cmd.MakeApp instead of the library entry points (mem, disk)
+	Reuse      bool // library driver: one set of component instances serves every command
 	dir        string
 	keyDir     string
 	bucketRoot string
@@ -179,48 +199,85 @@ type world struct {
 	certDir    string
 	rootPath   string
 	outRoot    string
+	outRoot2   string
 	fwDir      string
+	fast       *rotsim.FastRand
 	signer     *nonprod.Signer
 	mca        *memca.CertificateAuthority
+	kms        *testkms.FakeKmsServer
 	signLog    []signRec
 	nfw        int
+	keepCA     styp.CertificateAuthority
+	keepKM     keys.ManagerInterface
+	keepSig    styp.Signer
 }
 
-func newWorld(kind string, cli bool) (*world, error) {
+func newWorld(kind string, cli, reuse bool) (*world, error) {
 	dir, err := os.MkdirTemp("", "c03-")
 	if err != nil {
 		return nil, err
 	}
-	w := &world{Kind: kind, CLI: cli, dir: dir, keyDir: filepath.Join(dir, "keys"), bucketRoot: filepath.Join(dir, "ca"),
-		bucket: "certs-test", certDir: "signer_certs", rootPath: "root.crt", outRoot: filepath.Join(dir, "out"), fwDir: filepath.Join(dir, "fw")}
-	for _, d := range []string{w.keyDir, w.bucketRoot, w.outRoot, w.fwDir} {
+	w := &world{Kind: kind, CLI: cli, Reuse: reuse && !cli, dir: dir, keyDir: filepath.Join(dir, "keys"), bucketRoot: filepath.Join(dir, "ca"),
+		bucket: "certs-test", certDir: "signer_certs", rootPath: "root.crt", outRoot: filepath.Join(dir, "out"), outRoot2: filepath.Join(dir, "out2"),
+		fwDir: filepath.Join(dir, "fw")}
+	for _, d := range []string{w.keyDir, w.bucketRoot, w.outRoot, w.outRoot2, w.fwDir} {
 		if err := os.MkdirAll(d, 0o755); err != nil {
 			return nil, err
 		}
 	}
-	w.signer = &nonprod.Signer{Rand: rand.Reader}
+	// Key generation inside the real components is fed from a pool of primes (key bits never
+	// influence a verdict); every key of one history is different.
+	w.fast = &rotsim.FastRand{}
+	w.signer = &nonprod.Signer{Rand: w.fast}
 	w.mca = memca.Create()
+	w.kms = &testkms.FakeKmsServer{Signer: w.signer}
 	return w, nil
 }
 
 func (w *world) close() { os.RemoveAll(w.dir) }
 
-// libContext builds a fresh context with fresh component instances for one library-level command.
+func (w *world) mode() string {
+	switch {
+	case w.CLI:
+		return w.Kind + "/cli"
+	case w.Reuse:
+		return w.Kind + "/lib-reuse"
+	}
+	return w.Kind + "/lib"
+}
+
+func (w *world) diskCA() *gcsca.CertificateAuthority {
+	return &gcsca.CertificateAuthority{RootPath: w.rootPath, PrivateBucket: w.bucket, SigningCertDirInGCS: w.certDir, Storage: &local.StorageClient{Root: w.bucketRoot}}
+}
+
+// libContext builds a context for one library-level command: fresh component instances over the
+// persistent state (as successive CLI invocations have), or, with Reuse, the instances of the
+// first command again (as a long-lived process has).
 func (w *world) libContext(overwrite bool) (context.Context, error) {
 	ctx := output.NewContext(context.Background(), &output.Options{Quiet: true, Overwrite: overwrite})
 	kc := &keys.Context{Random: rand.Reader}
 	ctx = keys.NewContext(ctx, kc)
+	if w.Reuse && w.keepCA != nil {
+		kc.CA, kc.Manager, kc.Signer = w.keepCA, w.keepKM, &recSigner{inner: w.keepSig, log: &w.signLog}
+		return ctx, nil
+	}
+	var sig styp.Signer
 	switch w.Kind {
 	case "mem":
-		km := &memkm.T{Signer: w.signer}
-		kc.Manager, kc.Signer, kc.CA = km, &recSigner{inner: w.signer, log: &w.signLog}, w.mca
+		kc.Manager, sig, kc.CA = &memkm.T{Signer: w.signer}, w.signer, w.mca
 	case "disk":
-		km := &localkm.T{T: memkm.T{Signer: &nonprod.Signer{Rand: rand.Reader}}, KeyDir: w.keyDir}
+		km := &localkm.T{T: memkm.T{Signer: &nonprod.Signer{Rand: w.fast}}, KeyDir: w.keyDir}
 		if err := km.Init(ctx); err != nil {
 			return nil, err
 		}
-		kc.Manager, kc.Signer = km, &recSigner{inner: km.Signer, log: &w.signLog}
-		kc.CA = &gcsca.CertificateAuthority{RootPath: w.rootPath, PrivateBucket: w.bucket, SigningCertDirInGCS: w.certDir, Storage: &local.StorageClient{Root: w.bucketRoot}}
+		kc.Manager, sig, kc.CA = km, km.Signer, w.diskCA()
+	case "kms":
+		mgr := &gcpkms.Manager{Project: "verif", Location: "here", KeyRingID: "ring", KeyClient: &kmsClient{srv: w.kms}, IAMClient: iamClient{}}
+		kc.Manager, sig, kc.CA = mgr, &gcpkms.Signer{Manager: mgr}, w.diskCA()
+	}
+	kc.Signer = &recSigner{inner: sig, log: &w.signLog}
+	if w.Reuse {
+		w.keepCA, w.keepKM, w.keepSig = kc.CA, kc.Manager, sig
 	}
 	return ctx, nil
 }
@@ -232,8 +289,10 @@ func (w *world) cliRun(args []string) error {
 	case "mem":
 		km, ca = &memkm.T{Signer: w.signer}, w.mca
 	case "disk":
-		km, ca = &localkm.T{T: memkm.T{Signer: &nonprod.Signer{Rand: rand.Reader}}}, &localca.T{}
+		km, ca = &localkm.T{T: memkm.T{Signer: &nonprod.Signer{Rand: w.fast}}}, &localca.T{}
 		args = append(args, "--key_dir="+w.keyDir, "--bucket_root="+w.bucketRoot, "--bucket="+w.bucket, "--cert_dir="+w.certDir, "--root_path="+w.rootPath)
+	default:
+		return fmt.Errorf("harness: no CLI driver for the %s world", w.Kind)
 	}
 	// The recorder wraps whatever signer the key manager component installed.
 	recorder := &cmd.PartialComponent{FInitContext: func(ctx context.Context) (context.Context, error) {
@@ -259,11 +318,12 @@ func (w *world) cliRun(args []string) error {
 	return root.Execute()
 }
 
+// readCA is the harness's own, always fresh, view of the authority's persistent state.
 func (w *world) readCA() styp.CertificateAuthority {
 	if w.Kind == "mem" {
 		return w.mca
 	}
-	return &gcsca.CertificateAuthority{RootPath: w.rootPath, PrivateBucket: w.bucket, SigningCertDirInGCS: w.certDir, Storage: &local.StorageClient{Root: w.bucketRoot}}
+	return w.diskCA()
 }
 
 func guard(f func() error) (err error, pan any) {
@@ -275,8 +335,24 @@ func guard(f func() error) (err error, pan any) {
 	return f(), nil
 }
 
+// run executes one command of the world. A command that fails ends its process: with Reuse the next
+// command gets new component instances (the storage-backed authority's cached manifest, for one,
+// is left half-updated by a Finalize that was refused).
+func (w *world) run(f func() error) (error, any) {
+	err, pan := guard(f)
+	if err != nil || pan != nil {
+		w.keepCA, w.keepKM, w.keepSig = nil, nil, nil
+	}
+	return err, pan
+}
+
+const (
+	kmsRootKeyID    = "verif-root"
+	kmsSigningKeyID = "verif-signing"
+)
+
 func (w *world) bootstrap(a action) (error, any) {
-	return guard(func() error {
+	return w.run(func() error {
 		if w.CLI {
 			return w.cliRun([]string{"bootstrap", "--root_key_cn=" + a.RootCN, "--signing_key_cn=" + a.SignCN, "--root_key_serial=" + a.RootSerial,
 				"--initial_signing_key_serial=" + a.SignSerial, "--timestamp=" + a.Time})
@@ -287,12 +363,16 @@ func (w *world) bootstrap(a action) (error, any) {
 		}
 		ctx = rotate.NewBootstrapContext(ctx, &rotate.BootstrapContext{RootKeyCommonName: a.RootCN, SigningKeyCommonName: a.SignCN,
 			RootKeySerial: mustBig(a.RootSerial), SigningKeySerial: mustBig(a.SignSerial), Now: mustTime(a.Time)})
+		if w.Kind == "kms" {
+			ctx = gcpkms.NewBootstrapContext(ctx, &gcpkms.BootstrapContext{RootKeyID: kmsRootKeyID, SigningKeyID: kmsSigningKeyID,
+				SigningKeyOperators: []string{"serviceAccount:signer@verif.invalid"}})
+		}
 		return rotate.Bootstrap(ctx)
 	})
 }
 
 func (w *world) rotate(a action) (error, any) {
-	return guard(func() error {
+	return w.run(func() error {
 		if w.CLI {
 			args := []string{"rotate", "--signing_key_cn=" + a.SignCN, "--timestamp=" + a.Time}
 			if a.SignSerial != "" {
@@ -306,6 +386,9 @@ func (w *world) rotate(a action) (error, any) {
 		}
 		skc := &rotate.SigningKeyContext{SigningKeyCommonName: a.SignCN, Now: mustTime(a.Time)}
 		ctx = rotate.NewSigningKeyContext(ctx, skc)
+		if w.Kind == "kms" {
+			ctx = gcpkms.NewSigningKeyContext(ctx, &gcpkms.SigningKeyContext{SigningKeyID: kmsSigningKeyID})
+		}
 		if a.SignSerial != "" {
 			skc.SigningKeySerial = mustBig(a.SignSerial)
 		} else if skc.SigningKeySerial, err = sops.NextSigningKeySerial(ctx); err != nil { // what cmd.RotateCommand.InitContext does
@@ -316,21 +399,45 @@ func (w *world) rotate(a action) (error, any) {
 	})
 }
 
-func (w *world) endorse(a action) (path string, err error, pan any) {
-	r := a.Req
-	base := r.Candidate
-	if base == "" {
-		base = endorse.DefaultEndorsementBasename
+// outPaths lists the endorsement files a request makes the pipeline write.
+func (w *world) outPaths(r *request, imageName string) []string {
+	roots := []string{w.outRoot}
+	if r.TwoVCS {
+		roots = append(roots, w.outRoot2)
 	}
-	path = filepath.Join(w.outRoot, r.OutDir, base+".binarypb")
-	err, pan = guard(func() error {
+	var ps []string
+	for _, root := range roots {
+		if r.Snapshot != "" {
+			ps = append(ps, filepath.Join(root, r.Snapshot, imageName+".signed"))
+			if r.SvsmImage {
+				ps = append(ps, filepath.Join(root, r.Snapshot, "svsm.igvm.signed"))
+			}
+			continue
+		}
+		base := r.Candidate
+		if base == "" {
+			base = endorse.DefaultEndorsementBasename
+		}
+		ps = append(ps, filepath.Join(root, r.OutDir, base+".binarypb"))
+	}
+	return ps
+}
+
+func (w *world) endorse(a action) (paths []string, err error, pan any) {
+	r := a.Req
+	imageName := "ovmf.fd"
+	if w.CLI {
+		w.nfw++
+		imageName = fmt.Sprintf("ovmf%d.fd", w.nfw)
+	}
+	paths = w.outPaths(r, imageName)
+	err, pan = w.run(func() error {
 		product := sgpb.SevProduct_SEV_PRODUCT_MILAN
 		if r.Genoa {
 			product = sgpb.SevProduct_SEV_PRODUCT_GENOA
 		}
 		if w.CLI {
-			w.nfw++
-			fw := filepath.Join(w.fwDir, fmt.Sprintf("ovmf%d.fd", w.nfw))
+			fw := filepath.Join(w.fwDir, imageName)
 			if err := os.WriteFile(fw, a.Image, 0o644); err != nil {
 				return fmt.Errorf("harness: %v", err)
 			}
@@ -349,6 +456,16 @@ func (w *world) endorse(a action) (path string, err error, pan any) {
 			}
 			if r.Commit != "" {
 				args = append(args, "--commit="+r.Commit)
+			}
+			if r.Snapshot != "" {
+				args = append(args, "--snapshot_dir="+r.Snapshot)
+				if r.SvsmImage {
+					p := filepath.Join(w.fwDir, fmt.Sprintf("svsm%d.igvm", w.nfw))
+					if err := os.WriteFile(p, svsmImage, 0o644); err != nil {
+						return fmt.Errorf("harness: %v", err)
+					}
+					args = append(args, "--svsm_path="+p)
+				}
 			}
 			if r.Snp {
 				args = append(args, "--add_snp", "--snp_launch_vmsas="+strconv.Itoa(int(r.Vmsas)))
@@ -387,7 +504,13 @@ func (w *world) endorse(a action) (path string, err error, pan any) {
 			return err
 		}
 		ec := &endorse.Context{Image: a.Image, ClSpec: r.ClSpec, CandidateName: r.Candidate, Timestamp: mustTime(r.Time),
-			VCS: &localnonvcs.T{Root: w.outRoot}, OutDir: r.OutDir, CommitRetries: 1, ImageName: "ovmf.fd"}
+			VCS: &localnonvcs.T{Root: w.outRoot}, OutDir: r.OutDir, CommitRetries: 1, ImageName: imageName, SnapshotDir: r.Snapshot}
+		if r.TwoVCS {
+			ec.VCSs = []endorse.VersionControl{&localnonvcs.T{Root: w.outRoot}, &localnonvcs.T{Root: w.outRoot2}}
+		}
+		if r.Snapshot != "" && r.SvsmImage {
+			ec.SvsmImage = svsmImage
+		}
 		if r.Commit != "" {
 			ec.Commit, _ = hex.DecodeString(r.Commit)
 		}
@@ -409,13 +532,14 @@ func (w *world) endorse(a action) (path string, err error, pan any) {
 // Model and oracle
 
 type fileRec struct {
-	Path      string
-	Req       *request
-	Step      int
-	RotBefore int      // rotations before the endorsement was made
-	Digest    []byte   // the digest handed to the signer for it
-	Key       string   // the key it was handed with
-	Times     []string // verification times already evaluated (classification only)
+	Path        string
+	Req         *request
+	Step        int
+	RotBefore   int      // rotations before the endorsement was made
+	Digests     [][]byte // every digest handed to the signer while the command ran
+	ImageSHA384 []byte
+	Copy        bool // a further file of the same command (second version-control root, SVSM snapshot)
+	cliDone     bool // the gcetcbendorsement inspect commands were run on it
 }
 
 type model struct {
@@ -424,16 +548,33 @@ type model struct {
 	root      *x509.Certificate
 	files     []*fileRec
 	rotations int
+	refused   int             // commands refused so far (the history went on without them)
 	usedSer   map[string]bool // CN \x00 serial of every certificate made so far
 	known     map[string]bool
+	salt      []int // drawn per history: verification zone / pool shape of successive judgements
+	nsalt     int
+	// the primary signing certificate, read back from the authority after bootstrap and rotations
+	primCN     string
+	primSerial *big.Int
+	primNB     time.Time
+	primNA     time.Time
+}
+
+func newModel(w *world, salt []int) *model {
+	return &model{w: w, usedSer: map[string]bool{}, known: map[string]bool{}, salt: salt}
+}
+
+func (m *model) nextSalt() int {
+	if len(m.salt) == 0 {
+		return 0
+	}
+	s := m.salt[m.nsalt%len(m.salt)]
+	m.nsalt++
+	return s
 }
 
 func (m *model) history() string {
-	mode := "lib"
-	if m.w.CLI {
-		mode = "cli"
-	}
-	return fmt.Sprintf("[%s/%s] %s", m.w.Kind, mode, strings.Join(m.hist, " ; "))
+	return fmt.Sprintf("[%s] %s", m.w.mode(), strings.Join(m.hist, " ; "))
 }
 
 func (m *model) report(t ev.TB, key, format string, args ...any) {
@@ -444,7 +585,36 @@ func (m *model) report(t ev.TB, key, format string, args ...any) {
 	m.known[key] = true
 }
 
-type captureWriter struct{ bytes.Buffer }
+// inconclusive counts a situation in which the statement demands nothing (or the harness cannot
+// observe what it needs) instead of failing.
+func (m *model) inconclusive(sub, what, format string, args ...any) {
+	ev.Class(sub, "inconclusive/"+what)
+	if !m.known["note/"+what] {
+		m.known["note/"+what] = true
+		ev.Note("C03 inconclusive (%s): %s", what, fmt.Sprintf(format, args...))
+	}
+}
+
+// refreshPrimary reads the primary signing certificate back from the authority.
+func (m *model) refreshPrimary() {
+	ctx := output.NewContext(context.Background(), &output.Options{Quiet: true})
+	ca := m.w.readCA()
+	prim, err := ca.PrimarySigningKeyVersion(ctx)
+	if err != nil || prim == "" {
+		return
+	}
+	der, err := ca.Certificate(ctx, prim)
+	if err != nil {
+		return
+	}
+	c, err := x509.ParseCertificate(der)
+	if err != nil {
+		return
+	}
+	m.primCN, m.primNB, m.primNA = c.Subject.CommonName, c.NotBefore, c.NotAfter
+	m.primSerial, _ = new(big.Int).SetString(c.Subject.SerialNumber, 10)
+	m.usedSer[c.Subject.CommonName+"\x00"+c.Subject.SerialNumber] = true
+}
 
 func inspect(f func(ctx context.Context) error) ([]byte, error) {
 	var buf bytes.Buffer
@@ -455,6 +625,8 @@ func inspect(f func(ctx context.Context) error) ([]byte, error) {
 
 func timeClass(t time.Time, lo, hi time.Time) string {
 	switch {
+	case lo.Equal(hi):
+		return "t=single-instant"
 	case t.Equal(lo):
 		return "t=notBefore"
 	case t.Equal(hi):
@@ -467,22 +639,26 @@ func timeClass(t time.Time, lo, hi time.Time) string {
 func (m *model) window(t ev.TB, f *fileRec) (lo, hi time.Time, cert *x509.Certificate, e *epb.VMLaunchEndorsement, golden *epb.VMGoldenMeasurement, raw []byte, ok bool) {
 	raw, err := os.ReadFile(f.Path)
 	if err != nil {
+		if f.Copy {
+			m.inconclusive("verify", "further-copy-not-written", "step %d: %s is not there; only the files the pipeline writes are judged", f.Step, filepath.Base(f.Path))
+			return
+		}
 		m.report(t, "C03/endorsement-file-missing", "endorsement written by step %d is not readable at %s: %v", f.Step, f.Path, err)
 		return
 	}
 	e = &epb.VMLaunchEndorsement{}
 	golden = &epb.VMGoldenMeasurement{}
 	if err := proto.Unmarshal(raw, e); err != nil {
-		m.report(t, "C03/endorsement-file-does-not-parse", "step %d: %v", f.Step, err)
+		m.report(t, "C03/endorsement-file-does-not-parse", "step %d (%s): %v", f.Step, filepath.Base(f.Path), err)
 		return
 	}
 	if err := proto.Unmarshal(e.GetSerializedUefiGolden(), golden); err != nil {
-		m.report(t, "C03/endorsement-payload-does-not-parse", "step %d: %v", f.Step, err)
+		m.report(t, "C03/endorsement-payload-does-not-parse", "step %d (%s): %v", f.Step, filepath.Base(f.Path), err)
 		return
 	}
 	cert, err = x509.ParseCertificate(golden.GetCert())
 	if err != nil {
-		m.report(t, "C03/embedded-certificate-does-not-parse", "step %d: %v", f.Step, err)
+		m.report(t, "C03/embedded-certificate-does-not-parse", "step %d (%s): %v", f.Step, filepath.Base(f.Path), err)
 		return
 	}
 	lo, hi = cert.NotBefore, cert.NotAfter
@@ -492,9 +668,16 @@ func (m *model) window(t ev.TB, f *fileRec) (lo, hi time.Time, cert *x509.Certif
 	if m.root.NotAfter.Before(hi) {
 		hi = m.root.NotAfter
 	}
+	if lo.After(hi) {
+		m.inconclusive("verify", "no-common-validity", "step %d: the root (%s .. %s) and the embedded certificate (%s .. %s) are never valid together, the statement demands nothing",
+			f.Step, m.root.NotBefore.UTC().Format(time.RFC3339), m.root.NotAfter.UTC().Format(time.RFC3339), cert.NotBefore.UTC().Format(time.RFC3339), cert.NotAfter.UTC().Format(time.RFC3339))
+		return
+	}
 	ok = true
 	return
 }
+
+var verifyZones = []*time.Location{time.UTC, time.FixedZone("", 5*3600+1800), time.FixedZone("", -(11 * 3600)), time.UTC}
 
 // judge evaluates every clause of the property for file f at verification time now.
 func (m *model) judge(t ev.TB, f *fileRec, now time.Time, why string) {
@@ -503,16 +686,34 @@ func (m *model) judge(t ev.TB, f *fileRec, now time.Time, why string) {
 		return
 	}
 	if now.Before(lo) || now.After(hi) {
-		t.Fatalf("harness: verification time %s outside [%s, %s]", now, lo, hi)
+		m.inconclusive("verify", "time-outside-window", "verification time %s outside [%s, %s]", now, lo, hi)
+		return
 	}
 	rotAfter := m.rotations - f.RotBefore
 	tc := timeClass(now, lo, hi)
-	ctxLine := fmt.Sprintf("file of step %d (%d rotations before it, %d since), verified at %s (%s; window %s .. %s; %s)", f.Step, f.RotBefore, rotAfter,
-		now.UTC().Format(time.RFC3339Nano), tc, lo.UTC().Format(time.RFC3339), hi.UTC().Format(time.RFC3339), why)
+	// the same instant in another zone, the authority's root next to an unrelated one: neither may matter
+	salt := m.nextSalt()
+	zone := verifyZones[salt%len(verifyZones)]
+	multiRoot := (salt/4)%2 == 1
+	nowZ := now.In(zone)
+	ctxLine := fmt.Sprintf("%s of step %d (%d rotations before it, %d since), verified at %s (%s; window %s .. %s; %s; extra unrelated root in the pool: %v)", filepath.Base(f.Path), f.Step, f.RotBefore, rotAfter,
+		nowZ.Format(time.RFC3339Nano), tc, lo.UTC().Format(time.RFC3339), hi.UTC().Format(time.RFC3339), why, multiRoot)
 
 	pool := x509.NewCertPool()
+	rootsPEM := pemOf(m.root)
+	if multiRoot {
+		if (salt/8)%2 == 1 {
+			pool.AddCert(extraRoot())
+			rootsPEM = append(pemOf(extraRoot()), rootsPEM...)
+		} else {
+			rootsPEM = append(rootsPEM, pemOf(extraRoot())...)
+		}
+	}
 	pool.AddCert(m.root)
-	verr, pan := guard(func() error { return verify.Endorsement(raw, &verify.Options{RootsOfTrust: pool, Now: now}) })
+	if multiRoot && (salt/8)%2 == 0 {
+		pool.AddCert(extraRoot())
+	}
+	verr, pan := guard(func() error { return verify.Endorsement(raw, &verify.Options{RootsOfTrust: pool, Now: nowZ}) })
 	if pan != nil {
 		m.report(t, "C03/verifier-panics", "verify.Endorsement panicked: %v; %s", pan, ctxLine)
 		return
@@ -529,6 +730,19 @@ func (m *model) judge(t ev.TB, f *fileRec, now time.Time, why string) {
 	}
 
 	// the documented openssl flow: payload, signature and certificate as printed by inspect
+	opensslFlow := func(payload, sig, certOut []byte) error {
+		// openssl pkeyutl -verify -pkeyopt rsa_padding_mode:pss -pkeyopt rsa_pss_saltlen:32 -pkeyopt digest:sha256
+		c, err := x509.ParseCertificate(certOut)
+		if err != nil {
+			return err
+		}
+		pub, ok := c.PublicKey.(*rsa.PublicKey)
+		if !ok {
+			return fmt.Errorf("certificate key is %T", c.PublicKey)
+		}
+		d := sha256.Sum256(payload)
+		return rsa.VerifyPSS(pub, crypto.SHA256, d[:], sig, &rsa.PSSOptions{SaltLength: 32, Hash: crypto.SHA256})
+	}
 	payload, err1 := inspect(func(ctx context.Context) error { return gcetcbendorsement.InspectPayload(ctx, e) })
 	sig, err2 := inspect(func(ctx context.Context) error { return gcetcbendorsement.InspectSignature(ctx, e) })
 	certOut, err3 := inspect(func(ctx context.Context) error {
@@ -541,36 +755,76 @@ func (m *model) judge(t ev.TB, f *fileRec, now time.Time, why string) {
 			m.report(t, "C03/inspect-output-differs-from-signed-material", "inspect printed payload %d bytes (stored %d), signature %d (stored %d), cert %d (stored %d) and at least one differs; %s",
 				len(payload), len(e.GetSerializedUefiGolden()), len(sig), len(e.GetSignature()), len(certOut), len(golden.GetCert()), ctxLine)
 		}
-		// openssl pkeyutl -verify -pkeyopt rsa_padding_mode:pss -pkeyopt rsa_pss_saltlen:32 -pkeyopt digest:sha256
-		var oerr error
-		if c, err := x509.ParseCertificate(certOut); err != nil {
-			oerr = err
-		} else if pub, ok := c.PublicKey.(*rsa.PublicKey); !ok {
-			oerr = fmt.Errorf("certificate key is %T", c.PublicKey)
-		} else {
-			d := sha256.Sum256(payload)
-			oerr = rsa.VerifyPSS(pub, crypto.SHA256, d[:], sig, &rsa.PSSOptions{SaltLength: 32, Hash: crypto.SHA256})
-		}
-		if oerr != nil {
+		if oerr := opensslFlow(payload, sig, certOut); oerr != nil {
 			m.report(t, "C03/documented-openssl-flow-fails", "RSA-PSS(sha256, salt 32) over the inspect outputs: %v; %s", oerr, ctxLine)
 		}
 	}
+	// the same through the commands the documentation names (`gcetcbendorsement inspect payload|signature|mask FILE`
+	// with their default --bytesform into a pipe, and `gcetcbendorsement verify FILE --root_cert`)
+	cliFiles := map[string][]byte{"e.binarypb": raw, "roots.pem": rootsPEM}
+	if !f.cliDone {
+		f.cliDone = true
+		cp, e1, p1 := endorsementCLI(cliFiles, nowZ, "inspect", "payload", "e.binarypb")
+		cs, e2, p2 := endorsementCLI(cliFiles, nowZ, "inspect", "signature", "e.binarypb")
+		cc, e3, p3 := endorsementCLI(cliFiles, nowZ, "inspect", "mask", "e.binarypb", "--path=cert")
+		switch {
+		case p1 != nil || p2 != nil || p3 != nil:
+			m.report(t, "C03/inspect-command-panics", "%v / %v / %v; %s", p1, p2, p3, ctxLine)
+		case e1 != nil || e2 != nil || e3 != nil:
+			m.report(t, "C03/inspect-command-fails", "gcetcbendorsement inspect payload/signature/mask --path=cert: %v / %v / %v; %s", e1, e2, e3, ctxLine)
+		default:
+			if !bytes.Equal(cp, e.GetSerializedUefiGolden()) || !bytes.Equal(cs, e.GetSignature()) || !bytes.Equal(cc, golden.GetCert()) {
+				m.report(t, "C03/inspect-command-output-differs-from-signed-material", "gcetcbendorsement inspect (default --bytesform, output not a terminal) printed payload %d bytes (stored %d), signature %d (stored %d), cert %d (stored %d) and at least one differs; %s",
+					len(cp), len(e.GetSerializedUefiGolden()), len(cs), len(e.GetSignature()), len(cc), len(golden.GetCert()), ctxLine)
+			}
+			if oerr := opensslFlow(cp, cs, cc); oerr != nil {
+				m.report(t, "C03/documented-openssl-flow-fails", "RSA-PSS(sha256, salt 32) over the outputs of the inspect commands: %v; %s", oerr, ctxLine)
+			}
+		}
+		ev.Class("verify", "entry gcetcbendorsement-inspect-commands")
+	}
+	if _, cerr, cpan := endorsementCLI(cliFiles, nowZ, "verify", "e.binarypb", "--root_cert=roots.pem"); cpan != nil {
+		m.report(t, "C03/verifier-panics", "gcetcbendorsement verify panicked: %v; %s", cpan, ctxLine)
+	} else if cerr != nil && verr == nil {
+		m.report(t, "C03/verify-command-rejects-pipeline-endorsement", "gcetcbendorsement verify --root_cert = %v although verify.Endorsement accepts; %s", cerr, ctxLine)
+	}
 
 	// verbatim storage: the stored payload is what was handed to the signer
-	if got := sha256.Sum256(e.GetSerializedUefiGolden()); !bytes.Equal(got[:], f.Digest) {
-		m.report(t, "C03/stored-payload-is-not-the-signed-bytes", "sha256(stored payload) = %x, the signer was handed %x; %s", got, f.Digest, ctxLine)
+	if len(f.Digests) == 0 {
+		m.inconclusive("verify", "signer-not-observed", "step %d: the recording signer saw no call, the signed-bytes clause cannot be judged", f.Step)
+	} else {
+		got := sha256.Sum256(e.GetSerializedUefiGolden())
+		found := false
+		for _, d := range f.Digests {
+			found = found || bytes.Equal(got[:], d)
+		}
+		if !found {
+			m.report(t, "C03/stored-payload-is-not-the-signed-bytes", "sha256(stored payload) = %x, the signer was handed %x; %s", got, f.Digests, ctxLine)
+		}
 	}
-	// the document is dated as requested (the verifier keys its provenance demand on that date)
+	// the document is dated as requested (the verifier keys its provenance demand on that date); a
+	// timestamp resolution coarser than the request's (up to a second) is not judged
 	reqT := mustTime(f.Req.Time)
 	if docT := timeproto.From(golden.GetTimestamp()); docT.After(changeDate) != reqT.After(changeDate) {
-		m.report(t, "C03/document-dated-on-other-side-of-provenance-date", "request timestamp %s, document timestamp %s: they fall on different sides of %s; %s",
-			reqT.UTC().Format(time.RFC3339Nano), docT.UTC().Format(time.RFC3339Nano), changeDate.Format(time.RFC3339), ctxLine)
+		if d := docT.Sub(reqT); d > -time.Second && d < time.Second {
+			m.inconclusive("verify", "document-timestamp-resolution", "request timestamp %s, document timestamp %s", reqT.UTC().Format(time.RFC3339Nano), docT.UTC().Format(time.RFC3339Nano))
+		} else {
+			m.report(t, "C03/document-dated-on-other-side-of-provenance-date", "request timestamp %s, document timestamp %s: they fall on different sides of %s; %s",
+				reqT.UTC().Format(time.RFC3339Nano), docT.UTC().Format(time.RFC3339Nano), changeDate.Format(time.RFC3339), ctxLine)
+		}
 	}
 	_ = cert
 
-	// every listed measurement is accepted for its configuration
+	// a verifier that is told the image's true digest accepts as well (golden.Digest is documented as
+	// the SHA-384 of the firmware image)
+	if err := verify.EndorsementProto(e, &verify.Options{RootsOfTrust: pool, Now: nowZ, ExpectedUefiSha384: f.ImageSHA384}); err != nil && verr == nil {
+		m.report(t, "C03/verifier-rejects-with-the-true-image-digest", "EndorsementProto with ExpectedUefiSha384 = sha384(image): %v; %s", err, ctxLine)
+	}
+
+	// every listed measurement is accepted for its configuration (what the document lists beyond
+	// that is not this property's business: only counted)
 	if (golden.GetSevSnp() != nil) != f.Req.Snp || (golden.GetTdx() != nil) != f.Req.Tdx {
-		m.report(t, "C03/technologies-differ-from-request", "document has snp=%v tdx=%v, request snp=%v tdx=%v; %s", golden.GetSevSnp() != nil, golden.GetTdx() != nil, f.Req.Snp, f.Req.Tdx, ctxLine)
+		m.inconclusive("verify", "technologies-differ-from-request", "document has snp=%v tdx=%v, request snp=%v tdx=%v", golden.GetSevSnp() != nil, golden.GetTdx() != nil, f.Req.Snp, f.Req.Tdx)
 	}
 	if snp := golden.GetSevSnp(); snp != nil {
 		var counts []int
@@ -579,7 +833,7 @@ func (m *model) judge(t ev.TB, f *fileRec, now time.Time, why string) {
 		}
 		sort.Ints(counts)
 		if len(counts) == 0 {
-			m.report(t, "C03/snp-lists-no-measurement", "%s", ctxLine)
+			m.inconclusive("verify", "snp-lists-no-measurement", "step %d", f.Step)
 		}
 		for _, c := range counts {
 			meas := snp.GetMeasurements()[uint32(c)]
@@ -601,7 +855,7 @@ func (m *model) judge(t ev.TB, f *fileRec, now time.Time, why string) {
 			if err := verify.SNP(golden, &verify.SNPOptions{Measurement: meas, ExpectedLaunchVMSAs: uint32(c)}); err != nil {
 				m.report(t, "C03/listed-snp-measurement-rejected", "measurement listed for %d VMSAs rejected with that count: %v; %s", c, err, ctxLine)
 			}
-			if err := verify.EndorsementProto(e, &verify.Options{RootsOfTrust: pool, Now: now, SNP: &verify.SNPOptions{Measurement: meas, ExpectedLaunchVMSAs: uint32(c)}}); err != nil && verr == nil {
+			if err := verify.EndorsementProto(e, &verify.Options{RootsOfTrust: pool, Now: nowZ, SNP: &verify.SNPOptions{Measurement: meas, ExpectedLaunchVMSAs: uint32(c)}}); err != nil && verr == nil {
 				m.report(t, "C03/listed-snp-measurement-rejected", "EndorsementProto with SNP options for %d VMSAs: %v; %s", c, err, ctxLine)
 			}
 		}
@@ -613,7 +867,7 @@ func (m *model) judge(t ev.TB, f *fileRec, now time.Time, why string) {
 	}
 	if td := golden.GetTdx(); td != nil {
 		if len(td.GetMeasurements()) == 0 {
-			m.report(t, "C03/tdx-lists-no-measurement", "%s", ctxLine)
+			m.inconclusive("verify", "tdx-lists-no-measurement", "step %d", f.Step)
 		}
 		for i, row := range td.GetMeasurements() {
 			pol, err := gcetcbendorsement.TdxPolicy(context.Background(), e, &gcetcbendorsement.TdxPolicyOptions{RAMGiB: int(row.GetRamGib())})
@@ -631,20 +885,32 @@ func (m *model) judge(t ev.TB, f *fileRec, now time.Time, why string) {
 		}
 	}
 
-	nontrivial := f.RotBefore > 0 || rotAfter > 0 || tc != "t=inside"
+	// non-trivial: a rotation lies before the endorsement or between it and the verification
+	nontrivial := f.RotBefore > 0 || rotAfter > 0
 	rc := "rot-before=" + capN(f.RotBefore) + "/rot-after=" + capN(rotAfter)
 	shape := reqClass(f.Req)
-	mode := m.w.Kind
-	if m.w.CLI {
-		mode += "/cli"
-	} else {
-		mode += "/lib"
-	}
-	ev.Case("verify", nontrivial, strings.Join([]string{mode, rc, shape, tc, why}, " "), mode+" "+rc+" "+tc, func() any {
-		return map[string]any{"history": m.history(), "file_step": f.Step, "now": now.UTC().Format(time.RFC3339Nano), "request": f.Req}
+	mode := m.w.mode()
+	ev.Case("verify", nontrivial, strings.Join([]string{mode, rc, shape, tc, why, fmt.Sprint(f.Copy)}, " "), mode+" "+rc+" "+tc, func() any {
+		return map[string]any{"history": m.history(), "file_step": f.Step, "file": filepath.Base(f.Path), "now": nowZ.Format(time.RFC3339Nano), "extra_root": multiRoot, "request": f.Req}
 	})
 	ev.Class("verify", "req "+shape)
 	ev.Class("verify", "why "+why)
+	ev.Class("verify", tc)
+	if zone != time.UTC {
+		ev.Class("verify", "now in a non-UTC zone")
+	}
+	if multiRoot {
+		ev.Class("verify", "pool holds an unrelated root too")
+	}
+	if f.Copy {
+		ev.Class("verify", "file is a further copy (second VCS root / SVSM snapshot)")
+	}
+	if lo.Equal(m.root.NotBefore) && cert.NotBefore.Before(m.root.NotBefore) {
+		ev.Class("verify", "window starts at the root's NotBefore (certificate dated before the root)")
+	}
+	if hi.Equal(m.root.NotAfter) && cert.NotAfter.After(m.root.NotAfter) {
+		ev.Class("verify", "window ends at the root's NotAfter (certificate outlives the root)")
+	}
 }
 
 func capN(n int) string {
@@ -652,6 +918,19 @@ func capN(n int) string {
 		return "2+"
 	}
 	return strconv.Itoa(n)
+}
+
+func commitClass(r *request) string {
+	switch n := len(r.Commit) / 2; {
+	case n == 0:
+		return ""
+	case n == 20:
+		return "commit"
+	case n == 32:
+		return "commit32"
+	default:
+		return "commitN"
+	}
 }
 
 func reqClass(r *request) string {
@@ -680,11 +959,11 @@ func reqClass(r *request) string {
 	}
 	switch {
 	case r.ClSpec != 0 && r.Commit != "":
-		p = append(p, "cl+commit")
+		p = append(p, "cl+"+commitClass(r))
 	case r.ClSpec != 0:
 		p = append(p, "cl")
 	default:
-		p = append(p, "commit")
+		p = append(p, commitClass(r))
 	}
 	rt := mustTime(r.Time)
 	switch {
@@ -696,6 +975,15 @@ func reqClass(r *request) string {
 		p = append(p, "dated:at")
 	default:
 		p = append(p, "dated:before")
+	}
+	switch {
+	case r.Snapshot != "" && r.SvsmImage:
+		p = append(p, "snapshot+svsm-image")
+	case r.Snapshot != "":
+		p = append(p, "snapshot")
+	}
+	if r.TwoVCS {
+		p = append(p, "two-vcs")
 	}
 	return strings.Join(p, ",")
 }
@@ -716,14 +1004,105 @@ func pick(lo, hi time.Time, frac float64, nanos int) time.Time {
 	return t
 }
 
-func (m *model) judgeAt(t ev.TB, f *fileRec, why string, fracs ...float64) {
+// judgeAt judges f at the given positions of its window (a window of one instant: once).
+func (m *model) judgeAt(t ev.TB, f *fileRec, why string, nanos int, fracs ...float64) {
 	lo, hi, _, _, _, _, ok := m.window(t, f)
 	if !ok {
 		return
 	}
-	for _, fr := range fracs {
-		m.judge(t, f, pick(lo, hi, fr, 0), why)
+	if lo.Equal(hi) {
+		m.judge(t, f, lo, why)
+		return
 	}
+	for _, fr := range fracs {
+		m.judge(t, f, pick(lo, hi, fr, nanos), why)
+	}
+}
+
+var supportedVmsas = func() map[uint32]bool {
+	s := map[uint32]bool{0: true}
+	for _, c := range sev.AllSupportedVmsaCounts {
+		s[c] = true
+	}
+	return s
+}()
+
+var plainCN = map[string]bool{"GCE-cc-tcb-root": true, "GCE-uefi-signer": true}
+
+var big63 = new(big.Int).Lsh(big.NewInt(1), 63)
+
+// unusual lists what about a command goes beyond the plain use of the tools. The statement is about
+// the endorsements the pipeline writes; an implementation that refuses such a command has written
+// nothing that could fail to verify, so a refusal is counted as inconclusive. The refusal of a plain
+// command is still reported: nothing in the documentation allows it.
+func (m *model) unusual(a action) []string {
+	var why []string
+	switch a.Kind {
+	case "bootstrap":
+		if !plainCN[a.RootCN] || !plainCN[a.SignCN] {
+			why = append(why, "free-form common name")
+		}
+		if mustBig(a.RootSerial).Cmp(big63) >= 0 || mustBig(a.SignSerial).Cmp(big63) >= 0 {
+			why = append(why, "serial number beyond 63 bits")
+		}
+	case "rotate":
+		if a.Collide || m.collides(a) {
+			why = append(why, "certificate name (common name + serial) already taken")
+		}
+		if a.TimeKind != "inside-root" {
+			why = append(why, "timestamp "+a.TimeKind)
+		}
+		if a.SignCN != m.primCN {
+			why = append(why, "common name differs from the current key's")
+		} else if !plainCN[a.SignCN] {
+			why = append(why, "free-form common name")
+		}
+		if a.SignSerial != "" {
+			s := mustBig(a.SignSerial)
+			if s.Cmp(big63) >= 0 {
+				why = append(why, "serial number beyond 63 bits")
+			}
+			if m.primSerial != nil && s.Cmp(m.primSerial) <= 0 {
+				why = append(why, "serial override not above the current serial")
+			}
+		}
+		if pt := mustTime(a.Time); !m.primNB.IsZero() && pt.Before(m.primNB) {
+			why = append(why, "timestamp before the current key's certificate")
+		}
+	case "endorse":
+		r := a.Req
+		if r.Snp && !supportedVmsas[r.Vmsas] {
+			why = append(why, "VMSA count that is not offered")
+		}
+		if n := len(r.Commit) / 2; n != 0 && n != 20 {
+			why = append(why, "commit that is not 20 bytes")
+		}
+		if rt := mustTime(r.Time); !m.primNB.IsZero() && (rt.Before(m.primNB) || rt.After(m.primNA)) {
+			why = append(why, "document dated outside the signing certificate's validity")
+		}
+		if r.TwoVCS {
+			why = append(why, "two version-control roots")
+		}
+		if r.Snapshot != "" && r.SvsmImage {
+			why = append(why, "snapshot with an SVSM image")
+		}
+	}
+	if m.refused > 0 {
+		why = append(why, "an earlier command of this history was refused")
+	}
+	return why
+}
+
+// collides: the rotation's certificate would get the name of a certificate made earlier.
+func (m *model) collides(a action) bool {
+	serial := a.SignSerial
+	if serial == "" {
+		if m.primSerial == nil {
+			return false
+		}
+		serial = new(big.Int).Add(m.primSerial, big.NewInt(1)).String()
+	}
+	return m.usedSer[a.SignCN+"\x00"+serial]
 }
 
 // step executes one action and judges. false = end of history.
@@ -731,12 +1110,19 @@ func (m *model) step(t ev.TB, a action) bool {
 	w := m.w
 	m.hist = append(m.hist, a.String())
 	n := len(m.hist)
+	// fail: a command did not succeed. true = the history goes on without it.
 	fail := func(what string, err error, pan any) bool {
 		if pan != nil {
 			m.report(t, "C03/pipeline-panics", "%s panicked: %v", what, pan)
-		} else {
-			m.report(t, "C03/history-command-failed", "%s failed although the request is inside the property's domain: %v", what, err)
+			return false
 		}
+		if why := m.unusual(a); len(why) > 0 {
+			m.inconclusive("history", what+" refused ("+why[0]+")", "%s = %v (%s)", a, err, strings.Join(why, "; "))
+			m.hist[len(m.hist)-1] += "=refused"
+			m.refused++
+			return a.Kind != "bootstrap"
+		}
+		m.report(t, "C03/history-command-failed", "%s failed although it is a plain use of the tool: %v", what, err)
 		return false
 	}
 	switch a.Kind {
@@ -754,50 +1140,62 @@ func (m *model) step(t ev.TB, a action) bool {
 		if err != nil {
 			return fail("reading the root certificate after bootstrap", err, nil)
 		}
-		if m.root, err = transform.PemToCertificate(pemBytes); err != nil {
+		if m.root, err = rootOfBundle(pemBytes); err != nil {
 			return fail("parsing the root certificate after bootstrap", err, nil)
 		}
 		m.usedSer[a.SignCN+"\x00"+a.SignSerial] = true
 		m.usedSer[a.RootCN+"\x00"+a.RootSerial] = true
+		m.refreshPrimary()
 	case "rotate":
+		collides := a.Collide || m.collides(a)
+		ev.Class("history", "rotation timestamp "+a.TimeKind)
 		if err, pan := w.rotate(a); err != nil || pan != nil {
-			if pan == nil && (a.Collide || strings.Contains(err.Error(), "overwrite not enabled")) {
-				// (a default-next serial can also land on an earlier override's certificate name)
+			if pan == nil && collides {
 				// refusing a rotation whose certificate would take an existing certificate's name is fine;
 				// the history goes on with the old primary
-				ev.Class("history", "colliding-serial-rotation/refused")
+				ev.Class("history", "colliding-serial-rotation/refused ("+w.Kind+")")
 				m.hist[len(m.hist)-1] += "=refused"
 				return true
 			}
 			return fail("rotate", err, pan)
 		}
-		if a.Collide {
-			ev.Class("history", "colliding-serial-rotation/performed")
+		if collides {
+			ev.Class("history", "colliding-serial-rotation/performed ("+w.Kind+")")
 		}
 		m.rotations++
+		m.refreshPrimary()
 		// endorsements issued before a rotation remain verifiable after it
 		for _, f := range m.files {
-			m.judgeAt(t, f, "after-rotation", 0, 0.5, 1)
+			if !f.Copy {
+				m.judgeAt(t, f, "after-rotation", a.Nanos, 0, a.Frac, 1)
+			}
 		}
 	case "endorse":
 		before := len(w.signLog)
-		path, err, pan := w.endorse(a)
+		paths, err, pan := w.endorse(a)
 		if err != nil || pan != nil {
 			return fail("endorse", err, pan)
 		}
-		if len(w.signLog) != before+1 {
-			m.report(t, "C03/signer-not-called-exactly-once", "endorse called the signer %d times", len(w.signLog)-before)
-			return false
+		var digests [][]byte
+		for _, r := range w.signLog[before:] {
+			digests = append(digests, r.Digest)
 		}
-		f := &fileRec{Path: path, Req: a.Req, Step: n, RotBefore: m.rotations, Digest: w.signLog[before].Digest, Key: w.signLog[before].Key}
-		for i, old := range m.files { // an overwritten file is replaced in the model
-			if old.Path == path {
-				m.files = append(m.files[:i], m.files[i+1:]...)
-				break
+		sum := sha512.Sum384(a.Image)
+		for i, path := range paths {
+			f := &fileRec{Path: path, Req: a.Req, Step: n, RotBefore: m.rotations, Digests: digests, ImageSHA384: sum[:], Copy: i > 0}
+			for j, old := range m.files { // an overwritten file is replaced in the model
+				if old.Path == path {
+					m.files = append(m.files[:j], m.files[j+1:]...)
+					break
+				}
+			}
+			m.files = append(m.files, f)
+			if f.Copy {
+				m.judgeAt(t, f, "fresh", 0, a.Frac)
+			} else {
+				m.judgeAt(t, f, "fresh", a.Nanos, 0, a.Frac, 1)
 			}
 		}
-		m.files = append(m.files, f)
-		m.judgeAt(t, f, "fresh", 0, 1)
 	case "verifyOld":
 		if len(m.files) == 0 {
 			return true
@@ -879,8 +1277,22 @@ var docTimes = []time.Time{
 	changeDate.Add(time.Second),
 }
 
+func genCommit(t *rapid.T, lib bool) string {
+	n := 20
+	if lib { // the command line insists on 20 bytes; endorse.Context takes any commit
+		switch k := rapid.IntRange(0, 9).Draw(t, "commitLenKind"); {
+		case k >= 8:
+			n = rapid.IntRange(1, 64).Draw(t, "commitLen")
+		case k >= 5:
+			n = 32
+		}
+	}
+	return hex.EncodeToString(rapid.SliceOfN(rapid.Byte(), n, n).Draw(t, "commit"))
+}
+
 func genRequest(t *rapid.T, idx int, m *model) *request {
 	r := &request{}
+	lib := !m.w.CLI
 	switch rapid.IntRange(0, 2).Draw(t, "tech") {
 	case 0:
 		r.Snp = true
@@ -926,16 +1338,18 @@ func genRequest(t *rapid.T, idx int, m *model) *request {
 	case 0:
 		r.ClSpec = rapid.Uint64Range(1, 1<<63).Draw(t, "clspec")
 	case 1:
-		r.Commit = hex.EncodeToString(rapid.SliceOfN(rapid.Byte(), 20, 20).Draw(t, "commit"))
+		r.Commit = genCommit(t, lib)
 	default:
 		r.ClSpec = rapid.Uint64Range(1, 1<<40).Draw(t, "clspec")
-		r.Commit = hex.EncodeToString(rapid.SliceOfN(rapid.Byte(), 20, 20).Draw(t, "commit"))
+		r.Commit = genCommit(t, lib)
 	}
-	switch rapid.IntRange(0, 5).Draw(t, "docTimeKind") {
-	case 0, 1:
+	switch k := rapid.IntRange(0, 8).Draw(t, "docTimeKind"); {
+	case k <= 1:
 		r.Time = genTimeIn(t, "docBefore", time.Date(2019, 1, 1, 0, 0, 0, 0, time.UTC), changeDate.Add(-2*time.Second))
-	case 2, 3:
+	case k <= 3:
 		r.Time = genTimeIn(t, "docAfter", changeDate.Add(2*time.Second), time.Date(2032, 1, 1, 0, 0, 0, 0, time.UTC))
+	case k <= 5 && !m.primNB.IsZero(): // while the current signing certificate is valid (the plain use of the tool)
+		r.Time = genTimeIn(t, "docInCert", m.primNB, m.primNA)
 	default:
 		r.Time = rapid.SampledFrom(docTimes).Draw(t, "docBoundary").Format(time.RFC3339Nano)
 	}
@@ -951,6 +1365,14 @@ func genRequest(t *rapid.T, idx int, m *model) *request {
 		r.OutDir = rapid.SampledFrom([]string{"", "certs", "a/b"}).Draw(t, "outDir")
 	default:
 		r.Candidate = fmt.Sprintf("2024-%02d-T20-00-cand-RC%02d", idx+1, idx)
+	}
+	// the snapshot method (firmware and signature side by side) instead of the manifest method
+	if !r.Overwrite && rapid.IntRange(0, 5).Draw(t, "snapshot") == 0 {
+		r.Snapshot = fmt.Sprintf("snap/%d", idx)
+		r.SvsmImage = rapid.Bool().Draw(t, "svsmImage")
+	}
+	if lib && rapid.IntRange(0, 7).Draw(t, "twoVCS") == 0 {
+		r.TwoVCS = true
 	}
 	return r
 }
@@ -971,22 +1393,52 @@ var (
 	t0Hi = time.Date(2030, 1, 1, 0, 0, 0, 0, time.UTC)
 )
 
-const verifyRule = "rapid state machine: authority drawn from {memca+memkm, gcsca over storage/local in a temp dir + localkm with keys on disk}, driver drawn from {rotate.Bootstrap / rotate.Key / endorse.VirtualFirmware with a fresh context and fresh component instances per command (70%), cmd.MakeApp with a fresh command tree per command (30%)}; history = bootstrap(common names, root/signing serials, t0 in 2015..2030 with fractional seconds and zone offsets) followed by <= 7 actions from rotate(common name, serial override or default next, t anywhere in the root's validity incl. end points), endorse(image, request), verifyOld(i, t); requests: SNP / TDX / both, VMSA count 0 (all 15) / 1 / a supported count / any 2..300, Milan or Genoa (never the zero product), optional family and image ids, optional 48-byte SVSM measurement, machine shapes any subset of the six supported (order varied), early accept, provenance ALWAYS present (ClSpec, 20-byte commit or both), document timestamp before / after / at / 1 ns / 0.5 s / 1 s around 2 Aug 2024, candidate names and output directories (unique, default basename, or --overwrite of an earlier file); images from fwgen (valid, 1-16 pages, SEV+TDX metadata) and, for about one endorsement in forty, the 2 MiB fakeovmf.CleanExample (which the plain TestRotationSmoke history also endorses on every authority/driver pair). A recording signer wrapper notes every digest handed to the signer. Oracle, for a file f and a time t in [max NotBefore, min NotAfter] of (root, embedded certificate): verify.Endorsement(file bytes, roots={root read from the authority after bootstrap}, Now=t) == nil; pki.RefAuthentic (independent chain + window + RSA-PSS) on the same bytes; InspectPayload / InspectSignature / InspectMask(cert) with BytesRaw byte-equal to the stored payload, signature and embedded certificate and RSA-PSS(SHA-256, salt 32) verifies over exactly those three outputs (the documented openssl flow); sha256(stored payload) == the digest the signer was handed; the document timestamp lies on the same side of 2 Aug 2024 as the request's; every listed SNP (count -> measurement) accepted by verify.SNP with that count (count 1: accepted without a count; with count 1 verify.SNP compares with the SVSM value by design - noted, not flagged), the SVSM value accepted with count 1, every TDX row inside TdxPolicy(row.ram).AnyMrTd. Evaluated: both end points right after every endorse; every file so far at both end points and the middle after every rotation; verifyOld at a drawn t. Every command of the history must succeed. non-trivial = >=1 rotation before the endorsement or between its creation and the verification, or t is an end point; distinct = (authority/driver, rotations before/after capped at 2, request shape, time class, trigger)"
+const verifyRule = "rapid state machine over a certificate authority. World: authority drawn from {memca+memkm, gcsca over storage/local in a temp dir + localkm with keys on disk, gcsca over storage/local + keys/gcpkms (Manager and Signer, so rotate.GoogleCertificateTemplate makes the rotated certificates) over testing/testkms.FakeKmsServer}; driver drawn from {library entry points rotate.Bootstrap / rotate.Key / endorse.VirtualFirmware with a fresh context and fresh component instances per command, the same with ONE set of instances for the whole history (long-lived process), cmd.MakeApp with a fresh command tree per command (memca and localkm worlds)}; keys come from the real key generators fed with pooled primes (all keys of a history differ). History = bootstrap(common names, root/signing serials, t0 in 2015..2030 with fractional seconds and zone offsets) followed by <= 7 actions from rotate(common name, serial override / default next / a serial that repeats an earlier certificate's, timestamp {inside the root's validity with the certificate nested in it, certificate outliving the root, exactly the root's NotAfter, BEFORE the root's NotBefore but overlapping}), endorse(image, request), verifyOld(i, t). Requests: SNP / TDX / both, VMSA count 0 (all 15) / 1 / a supported count / any 2..300, Milan or Genoa (never the zero product), optional family and image ids, optional 48-byte SVSM measurement, machine shapes any subset of the six supported (order varied), early accept, provenance ALWAYS present (ClSpec, commit or both; commit 20 bytes, through the library also 32 or 1..64 bytes), document timestamp before / after / at / 1 ns / 0.5 s / 1 s around 2 Aug 2024 or inside the current signing certificate's validity, output {manifest method: candidate names and output directories (unique, default basename, or --overwrite of an earlier file); snapshot method (--snapshot_dir: <image>.signed, with an SVSM image also svsm.igvm.signed); library only: two version-control roots in endorse.Context.VCSs}; images from fwgen (valid, 1-16 pages, SEV+TDX metadata) and, for about one endorsement in forty, the 2 MiB fakeovmf.CleanExample (which the plain TestRotationSmoke histories also endorse in every world). A recording signer wrapper notes every digest handed to the signer. Oracle, for every file f the command wrote and a time t in [max NotBefore, min NotAfter] of (root, embedded certificate) - t passed in a drawn zone, the pool holding the authority's root alone or next to an unrelated root: verify.Endorsement(file bytes, pool, Now=t) == nil and the `gcetcbendorsement verify FILE --root_cert` command agrees; EndorsementProto with ExpectedUefiSha384 = SHA-384(image) accepts as well; pki.RefAuthentic (independent chain + window + RSA-PSS) on the same bytes; InspectPayload / InspectSignature / InspectMask(cert) with BytesRaw AND the commands `gcetcbendorsement inspect payload|signature|mask --path=cert FILE` with their default --bytesform writing to a non-terminal (the documented `openssl ... <(gcetcbendorsement inspect ...)` flow; once per file) are byte-equal to the stored payload, signature and embedded certificate, and RSA-PSS(SHA-256, salt 32) verifies over exactly those three outputs; sha256(stored payload) is one of the digests the signer was handed while the command ran; the document timestamp lies on the same side of 2 Aug 2024 as the request's (differences below one second: timestamp resolution, counted only); every listed SNP (count -> measurement) accepted by verify.SNP with that count (count 1: accepted without a count; with count 1 verify.SNP compares with the SVSM value by design - noted, not flagged), the SVSM value accepted with count 1, every TDX row inside TdxPolicy(row.ram).AnyMrTd. Evaluated: both end points and a drawn interior time right after every endorse; every file so far at both end points and a drawn interior time after every rotation; verifyOld at a drawn t; a window of a single instant once. A command that goes beyond the plain use of the tools (see model.unusual: free-form or changed common name, serial beyond 63 bits or not above the current one, certificate name already taken, rotation timestamp outside the nested range, VMSA count that is not offered, commit that is not 20 bytes, document dated outside the signing certificate's validity, two VCS roots, SVSM snapshot, anything after a refused command) may be refused: counted as inconclusive, the history goes on; the refusal of a plain command and every panic are reported. non-trivial = >= 1 rotation before the endorsement or between its creation and the verification; distinct = (world/driver, rotations before/after capped at 2, request shape, time class, trigger, copy)"
+
+func genFracNanos(t *rapid.T) (float64, int) {
+	fr := rapid.Float64Range(0.0001, 0.9999).Draw(t, "frac")
+	if rapid.Bool().Draw(t, "subsecond") {
+		return fr, rapid.IntRange(1, 999999999).Draw(t, "nanos")
+	}
+	return fr, 0
+}
+
+var rotZones = []*time.Location{time.UTC, time.UTC, time.FixedZone("", 3600), time.FixedZone("", -(8 * 3600))}
+
+// genRotTime draws a rotation timestamp relative to the root's validity. signValid is the
+// repository's signing-certificate lifetime; it only steers the labels, the window is always read
+// from the certificates that come out.
+func genRotTime(t *rapid.T, root *x509.Certificate) (string, string) {
+	nb, na := root.NotBefore, root.NotAfter
+	signValid := time.Duration(styp.SignValidDays) * 24 * time.Hour
+	switch k := rapid.IntRange(0, 15).Draw(t, "rotTimeKind"); {
+	case k == 0:
+		return na.In(rapid.SampledFrom(rotZones).Draw(t, "tZone")).Format(time.RFC3339Nano), "at-root-NotAfter"
+	case k <= 2:
+		return genTimeIn(t, "tLate", na.Add(-signValid).Add(time.Second), na.Add(-time.Second)), "certificate-outlives-root"
+	case k <= 5:
+		return genTimeIn(t, "tEarly", nb.Add(-signValid).Add(time.Hour), nb.Add(-time.Second)), "before-root-NotBefore"
+	}
+	return genTimeIn(t, "t", nb, na.Add(-signValid)), "inside-root"
+}
 
 func TestHistories(t *testing.T) {
 	ev.Rule("verify", verifyRule)
-	ev.Rule("history", "one record per history of the state machine described under 'verify': class = authority/driver; non-trivial = it contains a rotation and an endorsement")
+	ev.Rule("history", "one record per history of the state machine described under 'verify': class = world/driver, plus counters for rotation timestamp kinds, colliding-serial rotations per world and refused (inconclusive) commands; non-trivial = it contains a performed rotation and an endorsement")
 	bigImage = fakeovmf.CleanExample(t, 2*1024*1024)
-	checks(ev.Scale(50, 150))
+	checks(ev.Scale(80, 200))
 	rapid.Check(t, func(t *rapid.T) {
-		kind := rapid.SampledFrom([]string{"mem", "disk"}).Draw(t, "authority")
-		cli := rapid.IntRange(0, 9).Draw(t, "driver") < 3
-		w, err := newWorld(kind, cli)
+		kind := rapid.SampledFrom([]string{"mem", "disk", "kms", "disk", "mem", "kms", "disk", "mem"}).Draw(t, "authority")
+		drv := rapid.SampledFrom([]string{"cli", "lib", "reuse", "cli", "lib", "cli", "reuse"}).Draw(t, "driver")
+		if kind == "kms" && drv == "cli" { // the Cloud KMS components have no local command tree
+			drv = "lib"
+		}
+		w, err := newWorld(kind, drv == "cli", drv == "reuse")
 		if err != nil {
 			t.Fatalf("harness: %v", err)
 		}
 		defer w.close()
-		m := &model{w: w, usedSer: map[string]bool{}, known: map[string]bool{}}
+		m := newModel(w, rapid.SliceOfN(rapid.IntRange(0, 15), 7, 7).Draw(t, "verifierSalt"))
 		boot := action{Kind: "bootstrap", RootCN: genCN(t, "rootCN", "GCE-cc-tcb-root"), SignCN: genCN(t, "signCN", "GCE-uefi-signer")}
 		boot.RootSerial = genSerial(t, "rootSerial", func(string) bool { return false })
 		boot.SignSerial = genSerial(t, "signSerial", func(s string) bool { return s == boot.RootSerial })
@@ -1013,19 +1465,19 @@ func TestHistories(t *testing.T) {
 			switch kindA {
 			case "rotate":
 				a = action{Kind: "rotate"}
-				switch rapid.IntRange(0, 2).Draw(t, "rotCN") {
-				case 0:
+				switch rapid.IntRange(0, 3).Draw(t, "rotCN") {
+				case 0, 1:
 					a.SignCN = lastCN
-				case 1:
+				case 2:
 					a.SignCN = "GCE-uefi-signer"
 				default:
 					a.SignCN = genCN(t, "signCN", lastCN)
 				}
 				lastCN = a.SignCN
 				switch sk := rapid.IntRange(0, 9).Draw(t, "serialKind"); {
-				case sk >= 6:
+				case sk >= 7:
 					a.SignSerial = genSerial(t, "override", func(s string) bool { return s == "0" || m.usedSer[a.SignCN+"\x00"+s] })
-				case sk == 5:
+				case sk >= 4:
 					// an override that repeats the serial of an earlier certificate with this common name:
 					// the authority may refuse the rotation (the storage-backed one does), but if it goes
 					// through, what it signs afterwards must still verify
@@ -1041,10 +1493,12 @@ func TestHistories(t *testing.T) {
 						a.Collide = true
 					}
 				}
-				a.Time = genTimeIn(t, "t", m.root.NotBefore, m.root.NotAfter)
+				a.Time, a.TimeKind = genRotTime(t, m.root)
+				a.Frac, a.Nanos = genFracNanos(t)
 			case "endorse":
 				a = action{Kind: "endorse", Req: genRequest(t, nEnd, m)}
 				a.Image, a.ImageNote = genImage(t, rapid.IntRange(0, 39).Draw(t, "image2MiB") == 23)
+				a.Frac, a.Nanos = genFracNanos(t)
 				nEnd++
 				endorsed = true
 			default:
@@ -1055,79 +1509,75 @@ func TestHistories(t *testing.T) {
 				case 1:
 					a.Frac = 1
 				default:
-					a.Frac = rapid.Float64Range(0.0001, 0.9999).Draw(t, "frac")
-					a.Nanos = rapid.IntRange(0, 999999999).Draw(t, "nanos")
+					a.Frac, a.Nanos = genFracNanos(t)
 				}
 			}
+			rotationsBefore := m.rotations
 			if !m.step(t, a) {
 				return
 			}
-			if a.Kind == "rotate" && a.Collide && !strings.HasSuffix(m.hist[len(m.hist)-1], "=refused") {
+			if a.Kind == "rotate" && a.Collide && m.rotations > rotationsBefore {
 				// what the authority signs after such a rotation must verify
 				ea := action{Kind: "endorse", Req: genRequest(t, nEnd, m)}
 				ea.Image, ea.ImageNote = genImage(t, false)
+				ea.Frac, ea.Nanos = genFracNanos(t)
 				nEnd++
 				endorsed = true
 				if !m.step(t, ea) {
 					return
 				}
 			}
-			if a.Kind == "rotate" {
-				// remember the serial the new certificate got, so that overrides stay collision free
-				ctx := output.NewContext(context.Background(), &output.Options{Quiet: true})
-				ca := w.readCA()
-				if prim, err := ca.PrimarySigningKeyVersion(ctx); err == nil {
-					if der, err := ca.Certificate(ctx, prim); err == nil {
-						if c, err := x509.ParseCertificate(der); err == nil {
-							m.usedSer[c.Subject.CommonName+"\x00"+c.Subject.SerialNumber] = true
-						}
-					}
-				}
-			}
-		}
-		mode := kind + "/lib"
-		if cli {
-			mode = kind + "/cli"
 		}
 		hist := m.history()
-		ev.Case("history", m.rotations > 0 && len(m.files) > 0, hist, mode, func() any { return hist })
+		ev.Case("history", m.rotations > 0 && len(m.files) > 0, hist, w.mode(), func() any { return hist })
 	})
 }
 
 // ---------------------------------------------------------------------------------------------
-// Plain regression / smoke histories (no generators): bootstrap, endorse, two rotations, endorse,
-// then everything verified again, on both authorities and both drivers.
+// Plain regression / smoke histories (no generators): bootstrap, endorse, rotations (one dated
+// before the root), endorsements through the manifest and the snapshot method, then everything
+// verified again, in every world and with every driver.
 
 func TestRotationSmoke(t *testing.T) {
 	img := fakeovmf.CleanExample(t, 2*1024*1024)
-	for _, kind := range []string{"mem", "disk"} {
-		for _, cli := range []bool{false, true} {
-			t.Run(fmt.Sprintf("%s/cli=%v", kind, cli), func(t *testing.T) {
-				w, err := newWorld(kind, cli)
-				if err != nil {
-					t.Fatal(err)
+	for _, wd := range [][2]string{{"mem", "lib"}, {"mem", "cli"}, {"disk", "lib"}, {"disk", "cli"}, {"disk", "reuse"}, {"kms", "lib"}, {"kms", "reuse"}} {
+		kind, drv := wd[0], wd[1]
+		t.Run(kind+"/"+drv, func(t *testing.T) {
+			w, err := newWorld(kind, drv == "cli", drv == "reuse")
+			if err != nil {
+				t.Fatal(err)
+			}
+			defer w.close()
+			m := newModel(w, []int{0, 5, 10, 15, 3})
+			svsm := strings.Repeat("ab", 48)
+			longCommit := strings.Repeat("0f", 20)
+			if drv != "cli" {
+				longCommit = strings.Repeat("0f", 32)
+			}
+			acts := []action{
+				{Kind: "bootstrap", RootCN: "GCE-cc-tcb-root", SignCN: "GCE-uefi-signer", RootSerial: "1", SignSerial: "2", Time: "2024-01-01T00:00:00Z"},
+				{Kind: "endorse", Image: img, ImageNote: "clean-2MiB", Frac: 0.5, Req: &request{Snp: true, Tdx: true, Shapes: allShapes, EarlyAccept: true, Svsm: svsm, ClSpec: 7, Time: "2024-08-02T00:00:00.5Z", Candidate: "rc0"}},
+				{Kind: "rotate", SignCN: "GCE-uefi-signer", Time: "2025-01-01T00:00:00Z", TimeKind: "inside-root", Frac: 0.25},
+				{Kind: "rotate", SignCN: "signer two", SignSerial: "40", Time: "2026-01-01T00:00:00.25+01:00", TimeKind: "inside-root", Frac: 0.75, Nanos: 7},
+				{Kind: "endorse", Image: img, ImageNote: "clean-2MiB", Frac: 0.5, Req: &request{Snp: true, Vmsas: 4, Genoa: true, Commit: longCommit, Time: "2026-02-01T00:00:00Z", OutDir: "rel"}},
+				{Kind: "verifyOld", Index: 0, Frac: 0.3, Nanos: 5},
+				{Kind: "verifyOld", Index: 1, Frac: 1},
+				// a key certificate dated before the root's NotBefore
+				{Kind: "rotate", SignCN: "signer two", Time: "2023-06-01T12:00:00Z", TimeKind: "before-root-NotBefore", Frac: 0.5},
+				{Kind: "endorse", Image: img, ImageNote: "clean-2MiB", Frac: 0.5, Req: &request{Snp: true, Vmsas: 2, ClSpec: 9, Time: "2025-02-01T00:00:00Z", Snapshot: "snap/0", SvsmImage: true}},
+				{Kind: "verifyOld", Index: 2, Frac: 0},
+				{Kind: "verifyOld", Index: 3, Frac: 0.9},
+			}
+			for _, a := range acts {
+				if !m.step(t, a) {
+					t.Fatalf("history ended early: %s", m.history())
 				}
-				defer w.close()
-				m := &model{w: w, usedSer: map[string]bool{}, known: map[string]bool{}}
-				svsm := strings.Repeat("ab", 48)
-				acts := []action{
-					{Kind: "bootstrap", RootCN: "GCE-cc-tcb-root", SignCN: "GCE-uefi-signer", RootSerial: "1", SignSerial: "2", Time: "2024-01-01T00:00:00Z"},
-					{Kind: "endorse", Image: img, ImageNote: "clean-2MiB", Req: &request{Snp: true, Tdx: true, Shapes: allShapes, EarlyAccept: true, Svsm: svsm, ClSpec: 7, Time: "2024-08-02T00:00:00.5Z", Candidate: "rc0"}},
-					{Kind: "rotate", SignCN: "GCE-uefi-signer", Time: "2025-01-01T00:00:00Z"},
-					{Kind: "rotate", SignCN: "signer two", SignSerial: "40", Time: "2026-01-01T00:00:00.25+01:00"},
-					{Kind: "endorse", Image: img, ImageNote: "clean-2MiB", Req: &request{Snp: true, Vmsas: 4, Genoa: true, Commit: strings.Repeat("0f", 20), Time: "2026-02-01T00:00:00Z", OutDir: "rel"}},
-					{Kind: "verifyOld", Index: 0, Frac: 0.3, Nanos: 5},
-					{Kind: "verifyOld", Index: 1, Frac: 1},
-				}
-				for _, a := range acts {
-					if !m.step(t, a) {
-						t.Fatalf("history ended early: %s", m.history())
-					}
-				}
-				if len(m.files) != 2 || m.rotations != 2 {
-					t.Fatalf("harness: %d files, %d rotations", len(m.files), m.rotations)
-				}
-			})
-		}
+			}
+			if m.refused > 0 {
+				ev.Note("C03 smoke history: %d commands were refused (counted as inconclusive): %s", m.refused, m.history())
+			} else if len(m.files) != 4 || m.rotations != 3 {
+				t.Fatalf("harness: %d files, %d rotations: %s", len(m.files), m.rotations, m.history())
+			}
+		})
 	}
 }
